@@ -270,7 +270,19 @@ Fixpoint closes_before_closed (l : list (move * outcome)) (open : nat) : bool :=
   | (MRecv 0, OClosed) :: r => Nat.eqb open 0
   | _ :: r => closes_before_closed r open
   end.
+(* once every input is closed and everything handed over has been received, the output is closed: a receive does
+   not block any more (it would, if the Join waited for anything but its own inputs) *)
+Fixpoint no_block_when_done (open sent rcvd : nat) (l : list (move * outcome)) : bool :=
+  match l with
+  | [] => true
+  | (MSend _ _, ODone) :: r => no_block_when_done open (S sent) rcvd r
+  | (MCloseIn _, ODone) :: r => no_block_when_done (open - 1) sent rcvd r
+  | (MRecv 0, OVal _) :: r => no_block_when_done open sent (S rcvd) r
+  | (MRecv 0, OBlocked) :: r => negb (Nat.eqb open 0 && Nat.eqb sent rcvd) && no_block_when_done open sent rcvd r
+  | _ :: r => no_block_when_done open sent rcvd r
+  end.
 Definition c12_ok : bool :=
+  (if cancelled_run then true else no_block_when_done nin 0 0 ms) &&
   negb (crashed c) &&
   prefix_ok 0 &&
   (if cancelled_run then true else
